@@ -30,12 +30,14 @@ type encoder struct {
 	anchorsSeen []string
 	frameCheck bool
 	declMods   []declMod
+	restoreChecks []restoreCheck
 }
 
 // declMod is a location the root function is allowed to modify.
 type declMod struct {
 	key   string
 	idx   string // "" = whole component
+	pred  func(idx string) string // region: the keys satisfying a predicate
 }
 
 type nameBinding struct {
@@ -53,6 +55,10 @@ type loopInfo struct {
 	mods    *modSet
 	hdrSt   *State // state after havoc (for iter())
 	hdrVals map[ssa.Value]Term
+}
+
+type restoreCheck struct {
+	key, idx, reach, listed, anchor, pos string
 }
 
 type retRec struct {
